@@ -116,7 +116,11 @@ impl InstructionGenerator {
     }
 
     fn generate_stash_by_ref_args(&mut self, args: &Expressions) {
-        for (index, Positioned { element: arg, pos }) in args.iter().enumerate() {
+        // The values are put at the front of the return stack, last argument first,
+        // so that they come out in argument order. Evaluating the path of an argument
+        // while copying it back can call further subprograms, which use the front of
+        // the return stack too and leave the remaining values of this call alone.
+        for (index, Positioned { element: arg, pos }) in args.iter().enumerate().rev() {
             if arg.is_by_ref() {
                 self.push(Instruction::EnqueueToReturnStack(index), *pos);
             }
